@@ -315,7 +315,7 @@ func (x *runner) quorum(set []*pk.Key) []sigkit.Entry {
 }
 
 // handover drives one configuration change A -> B, header first.
-func (x *runner) handover(B []*pk.Key) bool {
+func (x *runner) handover(B []*pk.Key, cfgSync bool) bool {
 	r := x.r
 	A := x.blkSet
 	fine := true
@@ -388,8 +388,12 @@ func (x *runner) handover(B []*pk.Key) bool {
 			return false // the model chain is gone
 		}
 	}
-	ok, err = sigkit.BlockPath(x.c, cfg, cfgRes, true, B)
-	if !x.judge("block-sync", "config-block", qa, A, ok, err, cfg) || !ok {
+	cfgPath := "block-submit"
+	if cfgSync {
+		cfgPath = "block-sync"
+	}
+	ok, err = sigkit.BlockPath(x.c, cfg, cfgRes, cfgSync, B)
+	if !x.judge(cfgPath, "config-block", qa, A, ok, err, cfg) || !ok {
 		return false
 	}
 	x.blkSet = B
@@ -415,8 +419,8 @@ func (x *runner) handover(B []*pk.Key) bool {
 		r.Inconclusive("execute second: " + err.Error())
 		return false
 	}
-	ok, err = sigkit.BlockPath(x.c, second, res, false, nil)
-	fine = x.judge("block-submit", "new-set-signs-after-handover", secondEntries, B, ok, err, second) && fine
+	ok, err = sigkit.BlockPath(x.c, second, res, !cfgSync, nil)
+	fine = x.judge(map[bool]string{false: "block-submit", true: "block-sync"}[!cfgSync], "new-set-signs-after-handover", secondEntries, B, ok, err, second) && fine
 	if !ok {
 		return false
 	}
@@ -490,7 +494,7 @@ func TestC14(t *testing.T) {
 				B = append(B, subset(rng, A, overlap)...)
 				B = append(B, pk.NewKeys(rng, nb-len(B))...)
 				B = pk.SortKeys(B)
-				if !x.handover(B) {
+				if !x.handover(B, (n+round)%2 == 0) {
 					break
 				}
 				r.Count("handovers_completed", 1)
